@@ -344,7 +344,7 @@ Fixpoint exec (e : ast) (c : N) (st : state) {struct e} : eres * state :=
   | AList es =>
       match exec_list es st with
       | (inl err, st1) => (err, st1)
-      | (inr vs, st1) => (EOk (VList vs), st1)
+      | (inr vs, st1) => if vbounded (VList vs) then (EOk (VList vs), st1) else (EErr, st1)
       end
   | AMap kvs =>
       let '(r, st1) :=
@@ -364,7 +364,7 @@ Fixpoint exec (e : ast) (c : N) (st : state) {struct e} : eres * state :=
                | (err, st1) => (inl err, st1)
                end
            end) kvs st in
-      match r with inl err => (err, st1) | inr m => (EOk (VMap m), st1) end
+      match r with inl err => (err, st1) | inr m => if vbounded (VMap m) then (EOk (VMap m), st1) else (EErr, st1) end
   | AStmt es =>
       (fix go (l : list ast) (last : value) (st : state) {struct l} : eres * state :=
          match l with
